@@ -35,7 +35,7 @@ func checkC05(c *Checker) {
 			continue
 		}
 		src, dst := buf{paramName(fn, 0)}, buf{paramName(fn, 1)}
-		assume := channelsPositive(src, dst)
+		assume := shapeAssume(src, dst)
 		N := specMin(src.lenT(), dst.lenT())
 		guardNE := Cond{Kind: CNE0, P: normSign(normInt(src.ch()).Sub(normInt(dst.ch())))}
 		for _, o := range panicPaths(s) {
@@ -66,7 +66,11 @@ func checkC05(c *Checker) {
 				continue
 			}
 			want := specMin(src.length(), dst.length())
-			if ret == nil || !eqUnder(ret, want, assume) {
+			here := assume.clone()
+			for _, fc := range o.St.facts.list {
+				here.add(fc)
+			}
+			if ret == nil || !eqUnder(ret, want, here) {
 				okR4, d4 = false, fmt.Sprintf("returns %s, expected min(Length(src), Length(dst))", pretty(canonOrNil(ret)))
 			}
 			var stores []*Effect
@@ -97,7 +101,7 @@ func checkC05(c *Checker) {
 						}
 					}
 					x.walk(func(y *Term) bool {
-						if y.Op == OpAtom && y.Loop == nil && y.Name != src.name+".bitDepth" && y.Name != dst.name+".bitDepth" {
+						if y.Op == OpAtom && y.Loop == nil && y.Name != src.name+".bitDepth" && y.Name != dst.name+".bitDepth" && !strings.HasPrefix(y.Name, "sizeof(") {
 							okR2, d2 = false, what+" depends on "+y.Name+" (neither the sample nor a bit depth)"
 						}
 						if y.Op == OpUnknown {
